@@ -136,6 +136,15 @@ theorem read_never_faults (img : Image) (cf : Nat → Content) (off : Int) (n : 
   | true => exact ⟨_, rfl⟩
   | false => exact tailPart_spec img s2
 
+/-- **ReadAt never panics, for any offset at all** (negative ones are refused before `read`; `Read`
+    only ever passes the cursor, which `Seek` keeps non-negative). -/
+theorem readAt_never_faults (img : Image) (cf : Nat → Content) (off : Int) (n : Nat) :
+    ∃ r, readAtC img cf off n = .ok r := by
+  unfold readAtC
+  by_cases h : off < 0
+  · simp only [h, if_true]; exact ⟨_, rfl⟩
+  · simp only [h, if_false]; exact read_never_faults img cf off n (by omega)
+
 /-! ### in-place transformations -/
 
 theorem clearRegions_never_faults (hdr start len : Int) (clear : Bool) :
